@@ -211,11 +211,11 @@ theorem Inv.congr {a b : St} (hk : b.vkeys = a.vkeys) (hc : b.cur = a.cur) (hs :
 
 /-- plain items (no `call_inline`): used by the refutation of the *rendered* statement. -/
 def simpleItem : Item → Bool
-  | .inline _ _ _ _ => false
+  | .inline _ _ _ _ _ => false
   | _ => true
 
 theorem Inv.doOp (st : St) (t : String) (a : List Arg) (o : Outs) (nn : Option String) (g : List Nat)
-    (h : Inv st) : Inv (doOp true st t a o nn g) := by
+    (as : List (String × AVal)) (h : Inv st) : Inv (doOp true st t a o nn g as) := by
   unfold OV.C18.doOp
   have he := rawExt_resolveArgs a st
   split
@@ -229,10 +229,10 @@ theorem Inv.doOp (st : St) (t : String) (a : List Arg) (o : Outs) (nn : Option S
       (N (newValuesK st1 (outKeys st1.cur (N st1) t o)).fst + 1) := by rw [hn]; exact h2
   exact Inv.congr (a := addNode (newValuesK st1 (outKeys st1.cur (N st1) t o)).fst
     ⟨nn.getD (autoNodeName st1.cur (N st1) t), "", t, ins,
-     (newValuesK st1 (outKeys st1.cur (N st1) t o)).snd, g, ""⟩) rfl rfl rfl rfl (Inv.ofAddNode _ _ h2)
+     (newValuesK st1 (outKeys st1.cur (N st1) t o)).snd, g, "", as⟩) rfl rfl rfl rfl (Inv.ofAddNode _ _ h2)
 
 theorem Inv.doCall (fns : List Fn) (st : St) (fi : Nat) (a : List Arg) (o : Option Outs)
-    (h : Inv st) : Inv (doCall true fns st fi a o) := by
+    (as : List (String × AVal)) (h : Inv st) : Inv (doCall true fns st fi a o as) := by
   unfold OV.C18.doCall
   split
   · exact Inv.rawExt h (rawExt_fail st _)
@@ -407,24 +407,31 @@ theorem ke_inlineRun (total : Bool) (st0 : St) (f : Fn) (actuals : List (Option 
   simp only []
   exact KE.trans (ke_cloneNodes _ f.nodes st0 _) (KE.trans (ke_addInlined _ _ _) (ke_renameFinals _ _ _ _))
 
-theorem Inv.doInline (fns : List Fn) (st : St) (fi : Nat) (a : List Arg) (o : Option (List String))
-    (p : String) (h : Inv st) : Inv (doInline true fns st fi a o p) := by
+theorem KE.congr {x a b : St} (hk : b.vkeys = a.vkeys) (hc : b.cur = a.cur) (hs : b.stack = a.stack)
+    (hd : b.done = a.done) (h : KE x a) : KE x b := by
+  unfold KE N nodeCount at *
+  rw [hk, hc, hs, hd]
+  exact h
+
+theorem ke_doInline (fns : List Fn) (st : St) (fi : Nat) (a : List Arg) (o : Option (List String))
+    (p : String) (as : List (String × AVal)) : KE st (doInline true fns st fi a o p as) := by
   unfold OV.C18.doInline
   split
-  · exact Inv.rawExt h (rawExt_fail st _)
+  · exact (rawExt_fail st _).ke
   · rename_i f _
     split
-    · exact Inv.rawExt h (rawExt_fail st _)
+    · exact (rawExt_fail st _).ke
     · split
-      · exact Inv.rawExt h (rawExt_fail st _)
+      · exact (rawExt_fail st _).ke
       · split
-        · exact Inv.rawExt h (rawExt_fail st _)
+        · exact (rawExt_fail st _).ke
         · simp only []
           have k0 : KE st (if p = "" then st else pushScope st p) := by
             split
             · exact KE.refl st
             · exact KE.same rfl rfl rfl rfl
-          have k1 := ke_inlineRun true (if p = "" then st else pushScope st p) f
+          have k1 := ke_inlineRun true (if p = "" then st else pushScope st p)
+            (resolveFn (effectiveAttrs true f as) f)
             (resolveArgs (if p = "" then st else pushScope st p) a).2
             (o.map (fun o => o.map (qualifyValue st.cur)))
           have k2 : ∀ s : St, KE s (if p = "" then s else popScope s) := by
@@ -432,21 +439,25 @@ theorem Inv.doInline (fns : List Fn) (st : St) (fi : Nat) (a : List Arg) (o : Op
             split
             · exact KE.refl s
             · exact ke_popScope s
-          exact Inv.congr rfl rfl rfl rfl (h.ke (KE.trans k0 (KE.trans k1 (k2 _))))
+          exact KE.congr rfl rfl rfl rfl (KE.trans k0 (KE.trans k1 (k2 _)))
+
+theorem Inv.doInline (fns : List Fn) (st : St) (fi : Nat) (a : List Arg) (o : Option (List String))
+    (p : String) (as : List (String × AVal)) (h : Inv st) : Inv (doInline true fns st fi a o p as) :=
+  h.ke (ke_doInline fns st fi a o p as)
 
 theorem Inv.step (fns : List Fn) (st : St) (it : Item) (h : Inv st) :
     Inv (OV.C18.step true fns st it) := by
   cases it with
   | input n => exact Inv.rawExt h ⟨⟨[.raw n], rfl, by simp [isAutoKey]⟩, rfl⟩
-  | op t a o nn g => exact Inv.doOp st t a o nn g h
+  | op t a o nn g as => exact Inv.doOp st t a o nn g as h
   | push n => exact Inv.rawExt h ⟨⟨[], by simp [OV.C18.step, pushScope], by simp⟩, rfl⟩
   | pop =>
     simp only [OV.C18.step, popScope]
     split
     · exact Inv.rawExt h (rawExt_fail st _)
     · exact Inv.rawExt h ⟨⟨[], by simp, by simp⟩, rfl⟩
-  | call f a o => exact Inv.doCall fns st f a o h
-  | inline f a o p => exact Inv.doInline fns st f a o p h
+  | call f a o as => exact Inv.doCall fns st f a o as h
+  | inline f a o p as => exact Inv.doInline fns st f a o p as h
   | beginSub g i => exact Inv.doBeginSub st g i h
   | endSub r d => exact Inv.doEndSub st r d h
   | output hd n =>
